@@ -59,17 +59,15 @@ def run(ctx):
             if ok:
                 sbb = sorts[0][0]
                 ok = b.dominates(sbb, fbb)
-                nb = [x for x in norms if _norm_target_vec(b, x) == vec]
+                nb = [x for x in norms if _norm_target(b, x)[0] == vec]
                 ok = ok and len(nb) == 1
                 if ok:
                     nbb, nt = nb[0]
                     x = strip(b.op_term(nt['args'][0], (nbb, None)))
                     p = strip(b.op_term(nt['args'][1], (nbb, None)))
-                    s_idx, j_idx = _norm_indices(b, nbb, nt)
-                    sr = util.range_of(util.loop_source(s_idx)) if s_idx is not None and util.loop_source(s_idx) is not None else None
+                    _, rows_ok, j_idx = _norm_target(b, nb[0])
                     jr = util.range_of(util.loop_source(j_idx)) if j_idx is not None and util.loop_source(j_idx) is not None else None
-                    dom_ok = (sr is not None and util.const_val(sr[0]) == 0 and _is_len_of(b, sr[1], vec) and
-                              jr is not None and util.const_val(jr[0]) == 0 and util.const_val(jr[1]) == 6)
+                    dom_ok = rows_ok and jr is not None and util.const_val(jr[0]) == 0 and util.const_val(jr[1]) == 6
                     # the loop precedes the sort: the sort is not inside the loop and the loop header dominates it
                     order_ok = not b.reaches(sbb, nbb) and _loop_header_dominates(b, nbb, sbb)
                     # nothing is added to the vector after normalisation started
@@ -138,38 +136,37 @@ def _vec_local(b, op):
     return l
 
 
-def _norm_target_vec(b, site):
+def _norm_target(b, site):
+    """(vec_local, row_domain_ok, j_term) of the element handed to the near-normaliser:
+    `&mut vec[s][j]` with s in 0..vec.len(), or `&mut row[j]` with row from vec.iter_mut()."""
     bi, t = site
-    # arg0 = &mut (*index_mut(&mut vec, s))[j]
-    term = b.op_term(t['args'][0], (bi, None))
-    found = []
-
-    def f(x):
-        if x[0] == 'call' and cname(x[1]) == 'IndexMut::index_mut':
-            found.append(x)
-    mir.walk(term, f)
-    if not found:
-        return None
-    v = found[0][2]
-    while isinstance(v, tuple) and v[0] in ('ref', 'deref'):
-        v = v[1]
-    if isinstance(v, tuple) and v[0] == 'mutb':
-        return v[1]
-    return None
-
-
-def _norm_indices(b, bi, t):
     term = strip(b.op_term(t['args'][0], (bi, None)))
-    # idx(deref(index_mut(vec, s)), j)
-    j = s = None
-    if isinstance(term, tuple) and term[0] == 'idx':
-        j = term[2]
-        inner = strip(term[1])
-        while isinstance(inner, tuple) and inner[0] == 'mutb':
-            inner = strip(inner[2])
-        if isinstance(inner, tuple) and inner[0] == 'call' and cname(inner[1]) == 'IndexMut::index_mut':
-            s = inner[3]
-    return s, j
+    if not (isinstance(term, tuple) and term[0] == 'idx'):
+        return None, False, None
+    j = term[2]
+    inner = strip(term[1])
+    while isinstance(inner, tuple) and inner[0] == 'mutb':
+        inner = strip(inner[2])
+    if isinstance(inner, tuple) and inner[0] == 'call' and cname(inner[1]) == 'IndexMut::index_mut':
+        v = inner[2]
+        while isinstance(v, tuple) and v[0] in ('ref', 'deref'):
+            v = v[1]
+        vec = v[1] if isinstance(v, tuple) and v[0] == 'mutb' else None
+        s_idx = inner[3]
+        src = util.loop_source(s_idx)
+        sr = util.range_of(src) if src is not None else None
+        dom = sr is not None and util.const_val(sr[0]) == 0 and vec is not None and _is_len_of(b, sr[1], vec) and not [a for a in sr[2] if a != 'into_iter']
+        return vec, dom, j
+    src = util.loop_source(inner)
+    if src is not None:
+        base, ad = util.iter_chain(src)
+        v = base
+        while isinstance(v, tuple) and (v[0] in ('ref', 'deref') or (v[0] == 'call' and cname(v[1]) in ('DerefMut::deref_mut', 'Deref::deref'))):
+            v = v[1] if v[0] in ('ref', 'deref') else v[2]
+        vec = v[1] if isinstance(v, tuple) and v[0] == 'mutb' else None
+        dom = vec is not None and all(a in ('iter_mut', 'into_iter') for a in ad) and 'iter_mut' in ad
+        return vec, dom, j
+    return None, False, None
 
 
 def _is_len_of(b, t, vec):
